@@ -121,8 +121,39 @@ func c04intKeyMaps() []c04extra {
 	return l
 }
 
+// values nested to the encoder's depth limit and one level either side of it (4096 states;
+// a linked struct and a nested map take two states per level)
+func c04depthLimit() []c04extra {
+	var l []c04extra
+	for _, n := range []int{2046, 2047, 2048, 2049, 4094, 4095, 4096, 4097} {
+		n := n
+		l = append(l, c04extra{fmt.Sprintf("nested-slices-%d", n), func() interface{} {
+			var v interface{} = 1
+			for i := 0; i < n; i++ {
+				v = []interface{}{v}
+			}
+			return v
+		}, false})
+		l = append(l, c04extra{fmt.Sprintf("nested-maps-%d", n), func() interface{} {
+			var v interface{} = 1
+			for i := 0; i < n; i++ {
+				v = map[string]interface{}{"a": v}
+			}
+			return v
+		}, false})
+		l = append(l, c04extra{fmt.Sprintf("linked-%d", n), func() interface{} {
+			var head *gen.Rec
+			for i := 0; i < n; i++ {
+				head = &gen.Rec{V: i, Next: head}
+			}
+			return head
+		}, false})
+	}
+	return l
+}
+
 func c04extras() []c04extra {
-	return append(append(c04longStrings(), c04intKeyMaps()...), []c04extra{
+	return append(append(append(c04longStrings(), c04intKeyMaps()...), c04depthLimit()...), []c04extra{
 		{"cyclic-pointer", func() interface{} { r := &gen.Rec{V: 1}; r.Next = r; return r }, false},
 		{"cyclic-map", func() interface{} { m := map[string]interface{}{}; m["self"] = m; return m }, false},
 		{"cyclic-slice", func() interface{} { s := make([]interface{}, 1); s[0] = s; return s }, false},
